@@ -215,6 +215,10 @@ def run(chk):
                     chk.violation('%s raised %r on a column of %d tensors' % (fn, ex, rows), {'rows': rows}, part='long_column')
                     continue
                 want = np.tile(short[fn], reps)[:rows]
+                if len(plain) != rows or len(acc) != rows or not acc.index.equals(df.index):
+                    chk.violation('%s of a column of %d tensors comes back with another length / index than the column' % (fn, rows), {'rows': rows, 'via': 'function' if len(plain) != rows else 'accessor'},
+                                  rows, [len(plain), len(acc)], part='long_column')
+                    continue
                 bad = np.nonzero(~np.isclose(plain, want, rtol=1e-12, atol=1e-12))[0]
                 bad_a = np.nonzero(~np.isclose(acc.to_numpy(), want, rtol=1e-12, atol=1e-12))[0]
                 if len(bad) or len(bad_a) or len(acc) != rows or not acc.index.equals(df.index):
